@@ -11,8 +11,9 @@ EXPLANATION = (
     "ReplicaGroup::select_replica — no second implementation of either choice; (4) R-DET in select_replica: the key hash "
     "uses a fixed-key hasher (DefaultHasher::new / no RandomState / no per-process seed), the hashed value derives from the "
     "configured field of the event, and the round-robin index is a single atomic fetch_add modulo the replica count."
+    " Per-event key: the fields map handed to select_replica inside the batch loop is created inside that loop."
 )
-DECIDED = ["first matching route wins, default is the first pipeline", "pattern semantics order", "single and batch injection share target and replica selection", "replica selection is deterministic / sticky by key and fair by a single atomic counter"]
+DECIDED = ["first matching route wins, default is the first pipeline", "pattern semantics order", "single and batch injection share target and replica selection", "replica selection is deterministic / sticky by key and fair by a single atomic counter", "a batched event is routed by its own fields only"]
 NOT_DECIDED = ["equality of the JSON renderings of a key on the two paths (both call select_replica with the event's fields map)"]
 
 C = "varpulis_cluster::"
